@@ -466,7 +466,7 @@ esl_opt_ProcessConfigfile(ESL_GETOPTS *g, char *filename, FILE *fp)
       if (optname   == NULL) continue; /* blank line */
       if (*optname  == '#')  continue; /* comment line */
       if (*optname  != '-') 
-	ESL_FAIL(eslESYNTAX, g->errbuf,
+	ESL_XFAIL(eslESYNTAX, g->errbuf,
 		 "Parse failed at line %d of cfg file %.24s (saw %.24s, not an option)\n",
 		 line, filename, optname);
       
@@ -479,7 +479,7 @@ esl_opt_ProcessConfigfile(ESL_GETOPTS *g, char *filename, FILE *fp)
        */
       esl_strtok(&s, " \t\n", &comment);
       if (comment != NULL && *comment != '#') 
-	ESL_FAIL(eslESYNTAX, g->errbuf,
+	ESL_XFAIL(eslESYNTAX, g->errbuf,
 		 "Parse failed at line %d of cfg file %.24s (saw %.24s, not a comment)\n",
 		 line, filename, comment);
 	
@@ -487,14 +487,14 @@ esl_opt_ProcessConfigfile(ESL_GETOPTS *g, char *filename, FILE *fp)
        * figure out what option this is.
        */
       if (get_optidx_exactly(g, optname, &opti) != eslOK) 
-	ESL_FAIL(eslESYNTAX, g->errbuf,
+	ESL_XFAIL(eslESYNTAX, g->errbuf,
 		 "%.24s is not a recognized option (config file %.24s, line %d)\n",
 		 optname, filename, line);
 
       /* An option that takes an argument must have one on its line.
        */
       if (g->opt[opti].type != eslARG_NONE && optarg == NULL)
-	ESL_FAIL(eslESYNTAX, g->errbuf,
+	ESL_XFAIL(eslESYNTAX, g->errbuf,
 		 "Option %.24s requires an argument (config file %.24s, line %d)\n",
 		 optname, filename, line);
 
@@ -506,12 +506,16 @@ esl_opt_ProcessConfigfile(ESL_GETOPTS *g, char *filename, FILE *fp)
       status = set_option(g, opti, optarg, 
 			  eslARG_SETBY_CFGFILE+g->nfiles,
 			  TRUE);
-      if (status != eslOK) return status;
+      if (status != eslOK) goto ERROR;
     }
 
   if (buf != NULL) free(buf);
   g->nfiles++;
   return eslOK;
+
+ ERROR:
+  if (buf != NULL) free(buf);
+  return status;
 }
 
 
